@@ -27,10 +27,13 @@
 
 #include <algorithm>
 #include <dirent.h>
+#include <filesystem>
+#include <fstream>
 #include <memory>
 
 namespace ecl = Opm::EclIO;
 namespace OS = Opm::EclIO::OutputStream;
+namespace fs = std::filesystem;
 using vh::Rng;
 
 static const char* KEY_STRAY = "formatted-rewind-stray-byte";
@@ -400,6 +403,75 @@ int main(int argc, char** argv) {
             rep.case_done(vh::fnv(t), seq.size() >= 2);
             if (idx == 2 * (N + 1) + 7 || idx == nEnum) rep.sample(t);
             runner.run(seq, fmt, rng, idx < nEnum ? 1 : 2, true);
+        });
+        rep.finish();
+        return 0;
+    }
+
+    // ---- mode=big: the same rewind rules with the write positions beyond 2^31 and 2^32 bytes -------------------------------------
+    // The bulk of the first report step is one REAL array put into the file as array header + file hole (sparse, nothing is
+    // written to disk): the library reads only array headers when it indexes a file and looks for the write position, so offsets
+    // of later report steps are as large as in a field-scale run.  The file is never read as a whole; the oracle uses the file
+    // size, the list of report steps the library reports, the bytes of the rewritten step, and 64 KiB windows ahead of the cut.
+    if (mode == "big") {
+        auto window = [](const std::string& fn, uint64_t from, uint64_t len) { std::string b(len, '\0'); std::ifstream is(fn, std::ios::binary); is.seekg((std::streamoff)from); is.read(&b[0], (std::streamsize)len); b.resize((size_t)is.gcount()); return b; };
+        rep.run_cases([&](long idx, Rng& rng) {
+            cleanDir(runner.dirReal);
+            const std::string fn = unifiedName(runner.dirReal, false);
+            std::string witness = "unformatted unified file with a sparse bulk array\n";
+            auto viol = [&](const std::string& key, const std::string& what) { rep.violation(key, what, witness + what + "\n"); };
+            struct Sv { int step; uint64_t start; };
+            std::vector<Sv> surv;
+            int s = (int)rng.range(1, 3);
+            try {
+                libWriteStep(runner.dirReal, false, genStep(rng, s, 1));
+                surv.push_back({s, 0});
+                static const uint64_t T[] = {1ull << 31, 1ull << 32, (1ull << 32) + (1ull << 31)};
+                const uint64_t target = T[idx % 3] + rng.below(1 << 20);
+                uint64_t cur = fs::file_size(fn);
+                const uint64_t n = (target - cur) / 4;        // REAL elements: the array ends a little beyond the target
+                {
+                    std::ofstream os(fn, std::ios::binary | std::ios::app);
+                    auto put32 = [&](uint32_t v) { unsigned char b[4] = {(unsigned char)(v >> 24), (unsigned char)(v >> 16), (unsigned char)(v >> 8), (unsigned char)v}; os.write((const char*)b, 4); };
+                    put32(16); os.write("BULK    ", 8); put32((uint32_t)n); os.write("REAL", 4); put32(16);
+                }
+                fs::resize_file(fn, fs::file_size(fn) + 4 * n + 8 * ((n + 999) / 1000));
+                witness += "  step " + std::to_string(s) + " + sparse REAL array of " + std::to_string(n) + " elements: file size " + std::to_string(fs::file_size(fn)) + "\n";
+                const int later = (int)rng.range(2, 4);
+                for (int q = 0; q < later; ++q) { s += (int)rng.range(1, 3); const uint64_t at = fs::file_size(fn); libWriteStep(runner.dirReal, false, genStep(rng, s, 1)); surv.push_back({s, at}); witness += "  append step " + std::to_string(s) + " at byte " + std::to_string(at) + "\n"; }
+                rep.maxof("largest_write_position", (double)surv.back().start);
+                const int nrew = (int)rng.range(1, 3);
+                for (int q = 0; q < nrew; ++q) {
+                    // a step number at or above the first one beyond the bulk array (a rewind into the first step would drop the bulk)
+                    const int lo = surv.size() > 1 ? surv[1].step : surv[0].step + 1;
+                    const int r = (int)rng.range(lo, surv.back().step + 1);
+                    StepContent c = genStep(rng, r, 1);
+                    cleanDir(runner.dirOne);
+                    libWriteStep(runner.dirOne, false, c);
+                    const std::string one = vh::read_file(unifiedName(runner.dirOne, false));
+                    size_t k = 0; while (k < surv.size() && surv[k].step < r) ++k;
+                    const uint64_t before = fs::file_size(fn);
+                    const uint64_t cut = k < surv.size() ? surv[k].start : before;
+                    const std::string ahead = window(fn, cut >= 65536 ? cut - 65536 : 0, cut >= 65536 ? 65536 : cut), head = window(fn, 0, 4096);
+                    witness += "  write step " + std::to_string(r) + (k < surv.size() ? " (rewind to byte " + std::to_string(cut) + ")" : " (append)") + "\n";
+                    rep.journal_note(witness);
+                    libWriteStep(runner.dirReal, false, c);
+                    rep.count(k < surv.size() ? "rewinds_beyond_2GiB" : "appends_beyond_2GiB");
+                    rep.cover("write_position_range", cut >= (1ull << 32) ? ">= 2^32" : cut >= (1ull << 31) ? "[2^31, 2^32)" : "< 2^31");
+                    const uint64_t after = fs::file_size(fn);
+                    if (after != cut + one.size()) { viol("big:file-size-after-write", "after writing step " + std::to_string(r) + " the file has " + std::to_string(after) + " bytes, expected " + std::to_string(cut) + " + " + std::to_string(one.size())); return; }
+                    if (window(fn, cut, one.size()) != one) { viol("big:written-step-not-last", "the bytes behind the cut are not the step as written into an empty file"); return; }
+                    if (window(fn, cut >= 65536 ? cut - 65536 : 0, cut >= 65536 ? 65536 : cut) != ahead || window(fn, 0, 4096) != head) { viol("big:earlier-steps-changed", "bytes ahead of the write position changed"); return; }
+                    surv.resize(k); surv.push_back({r, cut});
+                    ecl::ERst rst(fn);
+                    std::vector<int> want; for (auto& v : surv) want.push_back(v.step);
+                    if (rst.listOfReportStepNumbers() != want) { std::string g; for (int x : rst.listOfReportStepNumbers()) g += std::to_string(x) + " "; viol("big:report-steps", "the library lists report steps " + g + "after the write"); return; }
+                    rep.count("comparisons_big_file_after_write");
+                }
+            } catch (const std::exception& e) { viol("big:threw", std::string("exception: ") + std::string(e.what()).substr(0, 300)); }
+            cleanDir(runner.dirReal);
+            rep.case_done(vh::fnv(witness), true);
+            if (idx < 1) rep.sample(witness);
         });
         rep.finish();
         return 0;
